@@ -194,6 +194,7 @@ type c15Exp struct {
 type c15ExpKey struct {
 	tr, enc, comp string
 	auth, good    bool
+	lvl           int // compression_params.level (http only); 0 = unset
 }
 
 func c15MakeExporter(t *testing.T, r *c15Recv, k c15ExpKey) *c15Exp {
@@ -236,6 +237,9 @@ func c15MakeExporter(t *testing.T, r *c15Recv, k c15ExpKey) *c15Exp {
 		cfg.RetryConfig.Enabled = false
 		cfg.ClientConfig.Endpoint = "http://" + r.httpAddr
 		cfg.ClientConfig.Compression = configcompression.Type(k.comp)
+		if k.lvl != 0 {
+			cfg.ClientConfig.CompressionParams = configcompression.CompressionParams{Level: configcompression.Level(k.lvl)}
+		}
 		cfg.ClientConfig.Headers = headers
 		if k.enc == "json" {
 			cfg.Encoding = otlphttpexporter.EncodingJSON
@@ -488,6 +492,7 @@ type c15Case struct {
 	comp  string
 	sig   string
 	items int
+	lvl   int // compression level of the HTTP client (0 = default); not an input of the model: the payload must arrive whatever it is
 	shell bool
 	out   c15Outcome
 	auth  string // off good bad
@@ -534,6 +539,24 @@ func c15Corpus() []c15Case {
 		cs = append(cs, c15Case{tr: tr, enc: enc, comp: "none", sig: "logs", items: 0, out: c15Outcome{kind: "perm"}, auth: "off"})
 		cs = append(cs, c15Case{tr: tr, enc: enc, comp: "none", sig: "logs", items: 1, out: c15Outcome{kind: "ok"}, auth: "bad"})
 		cs = append(cs, c15Case{tr: tr, enc: enc, comp: "none", sig: "logs", items: 1, out: c15Outcome{kind: "plain"}, auth: "good"})
+	}
+	return cs
+}
+
+// large (multi-block) payloads over every HTTP compression at non-default levels: level-dependent frame parameters
+// only matter once the body is streamed in more than one block
+func c15BigCorpus() []c15Case {
+	var cs []c15Case
+	for _, cl := range []struct {
+		comp string
+		lvl  int
+	}{{"zstd", 0}, {"zstd", 3}, {"zstd", 6}, {"zstd", 11}, {"gzip", 9}, {"gzip", 1}, {"zlib", 9}, {"deflate", 1}, {"snappy", 0}, {"lz4", 0}} {
+		for i, enc := range []string{"pb", "json"} {
+			cs = append(cs, c15Case{tr: "http", enc: enc, comp: cl.comp, lvl: cl.lvl, sig: c15Sigs[(i+cl.lvl)%3], items: 3000, out: c15Outcome{kind: "ok"}, auth: "off"})
+		}
+	}
+	for _, comp := range c15GrpcComps {
+		cs = append(cs, c15Case{tr: "grpc", enc: "-", comp: comp, sig: "traces", items: 3000, out: c15Outcome{kind: "ok"}, auth: "off"})
 	}
 	return cs
 }
@@ -596,7 +619,7 @@ func TestVerifC15(t *testing.T) {
 	open := c15StartReceiver(t, false)
 	authd := c15StartReceiver(t, true)
 	exps := map[c15ExpKey]*c15Exp{}
-	corpus := c15Corpus()
+	corpus := append(c15Corpus(), c15BigCorpus()...)
 	n := vN(600)
 	for _, ci := range vCases(n) {
 		rnd := vRand(ci)
@@ -638,7 +661,7 @@ func TestVerifC15(t *testing.T) {
 			out.Linef("obs wire code=%d http=%d retry=%s calls=%d", bc, st, ra, after-before)
 		}
 		// 2. the real exporter
-		k := c15ExpKey{tr: c.tr, enc: c.enc, comp: c.comp, auth: c.auth != "off", good: good}
+		k := c15ExpKey{tr: c.tr, enc: c.enc, comp: c.comp, auth: c.auth != "off", good: good, lvl: c.lvl}
 		e, ok := exps[k]
 		if !ok {
 			e = c15MakeExporter(t, r, k)
